@@ -9,6 +9,8 @@
 import Bridge.Abs
 import PtaProofs.Lemmas.Semantics
 import PtaProofs.Lemmas.SemanticsPlain
+import Bridge.RuleChain
+import PtaProofs.Lemmas.SemanticsNamed
 namespace Pta.C01
 open Pta PtaSpec
 
@@ -120,5 +122,255 @@ def exSub : RuleSpec := { verb := .shouldNot, importDir := true, exc := false, s
 theorem plain_subOf_counterexample :
     exB.wf = true ∧ exSub.namesIn exB = true ∧ exSub.exc = false ∧ exSub.anything = false ∧
     verdictOf (fun _ _ => false) (archGraph exB) (compile exSub) = .pass ∧ verdict exB exSub = false := by decide
+
+/-! ### beyond strict rules, all 12 shapes and the two `anything` aliases (audit F4)
+
+    Domains (Bridge/RuleChain.lean), from small to large:
+    `r.strict` ⊆ `compatible r` ⊇ `allNamedRule r`, and `compatible r` ⊆ `admissible r`.
+    * `allNamedRule r`: every subject and (effective) object is an `are_named` filter; the names may be equal, nested,
+      repeated, in any combination.
+    * `compatible r`: the identifier of every `are_sub_modules_of` filter is unrelated to the identifier of every OTHER
+      filter of the rule; `are_named` filters may be related to each other freely.
+    * `admissible r = parentFree r && dedupSafe r`: the parent identifier of an `are_sub_modules_of` filter is not a
+      MEMBER of any filter of the rule, and (for `anything`) every subject that `_convert_aliases` removes lies below a
+      subject given by name. -/
+
+theorem strict_compatible (r : RuleSpec) (h : r.strict = true) : compatible r = true := Pta.strict_compatible r h
+theorem allNamed_compatible (r : RuleSpec) (h : allNamedRule r = true) : compatible r = true :=
+  Pta.allNamed_compatible r h
+theorem compatible_admissible (r : RuleSpec) (h : compatible r = true) : admissible r = true :=
+  Pta.compatible_admissible r h
+
+/-- the most general form: verdict = documented semantics for every admissible rule -/
+theorem verdict_spec_admissible (mt : Str → Str → Bool) (a : Arch) (g : PGraph Str) (hg : GraphOf a g) (hwf : a.wf = true)
+    (r : RuleSpec) (hadm : admissible r = true) (hnames : r.namesIn a = true)
+    (hs : r.subjects ≠ []) (ho : r.anything = true ∨ r.objects ≠ [])
+    (hany : r.anything = true → r.verb = .shouldNot) :
+    verdictOf mt g (compile r) = VClass.ofBool (verdict a r) :=
+  Pta.verdict_spec_adm_lemma mt a g hg hwf r hadm hnames hs ho hany
+
+/-- the most general form: the reported atoms are the specification's violating set, for every admissible rule.
+    This includes the `anything` aliases with related subjects: the model reports on the subjects `_convert_aliases`
+    retains, the specification on all subjects, and the two SETS of violating imports coincide. -/
+theorem report_spec_admissible (mt : Str → Str → Bool) (a : Arch) (g : PGraph Str) (hg : GraphOf a g) (hwf : a.wf = true)
+    (r : RuleSpec) (hadm : admissible r = true) (hnames : r.namesIn a = true)
+    (hs : r.subjects ≠ []) (ho : r.anything = true ∨ r.objects ≠ [])
+    (hany : r.anything = true → r.verb = .shouldNot) (items : List Item)
+    (h : (assertApplies mt (compile r) g).2 = .fail items) :
+    ∀ x, x ∈ items.flatMap Item.atoms ↔ x ∈ (violating a r).flatMap SItem.atoms :=
+  Pta.report_spec_adm_lemma mt a g hg hwf r hadm hnames hs ho hany items h
+
+/-- `r.strict` replaced by `compatible r`: every `are_sub_modules_of` identifier unrelated to every other identifier -/
+theorem verdict_spec_compat (mt : Str → Str → Bool) (a : Arch) (g : PGraph Str) (hg : GraphOf a g) (hwf : a.wf = true)
+    (r : RuleSpec) (hc : compatible r = true) (hnames : r.namesIn a = true)
+    (hs : r.subjects ≠ []) (ho : r.anything = true ∨ r.objects ≠ [])
+    (hany : r.anything = true → r.verb = .shouldNot) :
+    verdictOf mt g (compile r) = VClass.ofBool (verdict a r) :=
+  Pta.verdict_spec_adm_lemma mt a g hg hwf r (Pta.compatible_admissible r hc) hnames hs ho hany
+
+theorem verdict_spec_compat_arch (mt : Str → Str → Bool) (a : Arch) (hwf : a.wf = true)
+    (r : RuleSpec) (hc : compatible r = true) (hnames : r.namesIn a = true)
+    (hs : r.subjects ≠ []) (ho : r.anything = true ∨ r.objects ≠ [])
+    (hany : r.anything = true → r.verb = .shouldNot) :
+    verdictOf mt (archGraph a) (compile r) = VClass.ofBool (verdict a r) :=
+  Pta.verdict_spec_adm_lemma mt a (archGraph a) (Pta.archGraph_graphOf a hwf) hwf r
+    (Pta.compatible_admissible r hc) hnames hs ho hany
+
+theorem report_spec_compat (mt : Str → Str → Bool) (a : Arch) (g : PGraph Str) (hg : GraphOf a g) (hwf : a.wf = true)
+    (r : RuleSpec) (hc : compatible r = true) (hnames : r.namesIn a = true)
+    (hs : r.subjects ≠ []) (ho : r.anything = true ∨ r.objects ≠ [])
+    (hany : r.anything = true → r.verb = .shouldNot) (items : List Item)
+    (h : (assertApplies mt (compile r) g).2 = .fail items) :
+    ∀ x, x ∈ items.flatMap Item.atoms ↔ x ∈ (violating a r).flatMap SItem.atoms :=
+  Pta.report_spec_adm_lemma mt a g hg hwf r (Pta.compatible_admissible r hc) hnames hs ho hany items h
+
+/-- all 12 shapes and the two `anything` aliases with NAMED subjects and objects, no relation between the names
+    assumed (equal, nested, repeated — also across the two sides) -/
+theorem verdict_spec_named (mt : Str → Str → Bool) (a : Arch) (g : PGraph Str) (hg : GraphOf a g) (hwf : a.wf = true)
+    (r : RuleSpec) (hnamed : allNamedRule r = true) (hnames : r.namesIn a = true)
+    (hs : r.subjects ≠ []) (ho : r.anything = true ∨ r.objects ≠ [])
+    (hany : r.anything = true → r.verb = .shouldNot) :
+    verdictOf mt g (compile r) = VClass.ofBool (verdict a r) :=
+  Pta.verdict_spec_adm_lemma mt a g hg hwf r (Pta.allNamed_admissible r hnamed) hnames hs ho hany
+
+theorem verdict_spec_named_arch (mt : Str → Str → Bool) (a : Arch) (hwf : a.wf = true)
+    (r : RuleSpec) (hnamed : allNamedRule r = true) (hnames : r.namesIn a = true)
+    (hs : r.subjects ≠ []) (ho : r.anything = true ∨ r.objects ≠ [])
+    (hany : r.anything = true → r.verb = .shouldNot) :
+    verdictOf mt (archGraph a) (compile r) = VClass.ofBool (verdict a r) :=
+  Pta.verdict_spec_adm_lemma mt a (archGraph a) (Pta.archGraph_graphOf a hwf) hwf r
+    (Pta.allNamed_admissible r hnamed) hnames hs ho hany
+
+/-- the report of a named rule, as a set of atoms — in full also for the `anything` aliases with related subjects
+    (no "`dedupSubjects` is the identity" hypothesis is needed: the duplicates only affect multiplicities) -/
+theorem report_spec_named (mt : Str → Str → Bool) (a : Arch) (g : PGraph Str) (hg : GraphOf a g) (hwf : a.wf = true)
+    (r : RuleSpec) (hnamed : allNamedRule r = true) (hnames : r.namesIn a = true)
+    (hs : r.subjects ≠ []) (ho : r.anything = true ∨ r.objects ≠ [])
+    (hany : r.anything = true → r.verb = .shouldNot) (items : List Item)
+    (h : (assertApplies mt (compile r) g).2 = .fail items) :
+    ∀ x, x ∈ items.flatMap Item.atoms ↔ x ∈ (violating a r).flatMap SItem.atoms :=
+  Pta.report_spec_adm_lemma mt a g hg hwf r (Pta.allNamed_admissible r hnamed) hnames hs ho hany items h
+
+/-! non-vacuity. Named, non-strict, every verb × direction × except: subjects `p.a` and its descendant `p.a.x`,
+    objects `p` (an ancestor of both subjects) and `p.b` -/
+def exN (v : Verb) (d x : Bool) : RuleSpec :=
+  { verb := v, importDir := d, exc := x, subjects := [.named (nm "p.a"), .named (nm "p.a.x")],
+    objects := [.named (nm "p"), .named (nm "p.b")] }
+example : ∀ v ∈ [Verb.should, Verb.shouldOnly, Verb.shouldNot], ∀ d ∈ [true, false], ∀ x ∈ [true, false],
+    (exN v d x).strict = false ∧ allNamedRule (exN v d x) = true ∧ (exN v d x).namesIn exA = true ∧
+    (exN v d x).subjects ≠ [] ∧ (exN v d x).objects ≠ [] := by decide
+set_option maxRecDepth 16000 in
+/-- both sides evaluate, to the same class, on all 12 shapes (passes and failures both occur) -/
+example : ∀ v ∈ [Verb.should, Verb.shouldOnly, Verb.shouldNot], ∀ d ∈ [true, false], ∀ x ∈ [true, false],
+    verdictOf (fun _ _ => false) (archGraph exA) (compile (exN v d x)) = VClass.ofBool (verdict exA (exN v d x)) := by
+  decide
+example : verdict exA (exN .should true false) = false ∧ verdict exA (exN .should true true) = true ∧
+    verdict exA (exN .shouldOnly true true) = true ∧ verdict exA (exN .shouldOnly false true) = false ∧
+    verdict exA (exN .shouldNot false false) = false ∧ verdict exA (exN .shouldNot false true) = true := by decide
+/-- `anything` with related (nested and repeated) named subjects: `_convert_aliases` removes `p.a` and the second `q`;
+    the verdicts agree and so do the reported imports -/
+def exAny (d : Bool) : RuleSpec :=
+  { verb := .shouldNot, importDir := d, exc := false, subjects := [.named (nm "p.a"), .named (nm "q"), .named (nm "p.a.x"), .named (nm "q")],
+    objects := [], anything := true }
+example : ∀ d ∈ [true, false], (exAny d).strict = false ∧ allNamedRule (exAny d) = true ∧ (exAny d).namesIn exA = true ∧
+    (exAny d).subjects ≠ [] ∧ (exAny d).anything = true ∧ (exAny d).verb = .shouldNot ∧ fluent (exAny d) = true ∧
+    dedupSubjects ((exAny d).subjects.map compileFilter) ≠ (exAny d).subjects.map compileFilter := by decide
+example : verdictOf (fun _ _ => false) (archGraph exA) (compile (exAny true)) = .pass ∧ verdict exA (exAny true) = true ∧
+    verdictOf (fun _ _ => false) (archGraph exA) (compile (exAny false)) = .fail ∧ verdict exA (exAny false) = false := by
+  decide
+example : (assertApplies (fun _ _ => false) (compile (exAny false)) (archGraph exA)).2 =
+      .fail [.imp "p.b".toList "p.a".toList true] ∧
+    violating exA (exAny false) = [.imp (nm "p.b") (nm "p.a")] := by decide
+
+/-- compatible but neither strict nor all named: `sub modules of p.a` next to the related names `p.b`, `p.b`, `q` -/
+def exC (v : Verb) (d x : Bool) : RuleSpec :=
+  { verb := v, importDir := d, exc := x, subjects := [.subOf (nm "p.a"), .named (nm "q"), .named (nm "q")],
+    objects := [.named (nm "p.b"), .named (nm "q"), .subOf (nm "p.a")] }
+example : ∀ v ∈ [Verb.should, Verb.shouldOnly, Verb.shouldNot], ∀ d ∈ [true, false], ∀ x ∈ [true, false],
+    (exC v d x).strict = false ∧ allNamedRule (exC v d x) = false ∧ compatible (exC v d x) = true ∧
+    (exC v d x).namesIn exA = true ∧ (exC v d x).subjects ≠ [] ∧ (exC v d x).objects ≠ [] := by decide
+set_option maxRecDepth 16000 in
+example : ∀ v ∈ [Verb.should, Verb.shouldOnly, Verb.shouldNot], ∀ d ∈ [true, false], ∀ x ∈ [true, false],
+    verdictOf (fun _ _ => false) (archGraph exA) (compile (exC v d x)) = VClass.ofBool (verdict exA (exC v d x)) := by
+  decide
+
+/-- admissible but not compatible: `sub modules of p` together with its own descendant `p.a` (the parent identifier
+    `p` is a member of neither filter) -/
+def exD (v : Verb) (d x : Bool) : RuleSpec :=
+  { verb := v, importDir := d, exc := x, subjects := [.subOf (nm "p")], objects := [.named (nm "p.a"), .named (nm "q")] }
+example : ∀ v ∈ [Verb.should, Verb.shouldOnly, Verb.shouldNot], ∀ d ∈ [true, false], ∀ x ∈ [true, false],
+    compatible (exD v d x) = false ∧ admissible (exD v d x) = true ∧ (exD v d x).namesIn exA = true ∧
+    fluent (exD v d x) = true ∧ (exD v d x).subjects ≠ [] ∧ (exD v d x).objects ≠ [] := by decide
+set_option maxRecDepth 16000 in
+example : ∀ v ∈ [Verb.should, Verb.shouldOnly, Verb.shouldNot], ∀ d ∈ [true, false], ∀ x ∈ [true, false],
+    verdictOf (fun _ _ => false) (archGraph exA) (compile (exD v d x)) = VClass.ofBool (verdict exA (exD v d x)) := by
+  decide
+
+/-- the boundary of `admissible`, first half: the rule of `plain_subOf_counterexample` is not `parentFree`
+    (the parent identifier `p` of the subject is a member of the object `p`) -/
+example : parentFree exSub = false ∧ dedupSafe exSub = true := by decide
+
+/-- the boundary of `admissible`, second half (`dedupSafe`): `p.a` imports `p`;
+    "sub modules of p, p.a should_not import anything". `_convert_aliases` removes the subject `p.a` because its
+    identifier lies below the identifier `p` of the OTHER subject — although `sub modules of p` does not cover the
+    import `p.a → p` (importee `p` is the subject's own parent), which the removed subject `p.a` does forbid
+    (`p` is outside `p.a` and outside every object). The rule is `parentFree`, every other hypothesis holds, the
+    model passes and the specification does not. -/
+def exDd : RuleSpec :=
+  { verb := .shouldNot, importDir := true, exc := false, subjects := [.subOf (nm "p"), .named (nm "p.a")], objects := [],
+    anything := true }
+theorem anything_subOf_dedup_counterexample :
+    exB.wf = true ∧ exDd.namesIn exB = true ∧ parentFree exDd = true ∧ dedupSafe exDd = false ∧
+    verdictOf (fun _ _ => false) (archGraph exB) (compile exDd) = .pass ∧ verdict exB exDd = false := by decide
+
+/-- the same boundary with a rule the fluent API CAN build (one `are_sub_modules_of([...])` call):
+    nodes `p`, `p.a`, `p.a.x`, `q`; the only import is `p.a.x → p`;
+    `modules_that().are_sub_modules_of(["p", "p.a"]).should_not().import_anything()`.
+    `_convert_aliases` removes the subject `sub modules of p.a` (its identifier lies below `p`) and the remaining rule
+    "sub modules of p should_not import except sub modules of p" tolerates the import (its far end `p` is the subject's
+    own parent): the model PASSES. The specification does not hold: for the subject `sub modules of p.a` the importee
+    `p` is outside `p.a` and outside every object. The model itself agrees with the specification on the rule WITHOUT the
+    alias, `… should_not().import_modules_except_modules_that().are_sub_modules_of(["p", "p.a"])` (it FAILS), so on this
+    input the alias conversion changes the verdict. The rule is neither `parentFree` (`p.a` is a member of
+    `sub modules of p`) nor `dedupSafe`; all other hypotheses of the oracle theorems hold. -/
+def exE : Arch := { nodes := ["p", "p.a", "p.a.x", "q"].map nm, imports := [(nm "p.a.x", nm "p")] }
+def exEany : RuleSpec :=
+  { verb := .shouldNot, importDir := true, exc := false, subjects := [.subOf (nm "p"), .subOf (nm "p.a")], objects := [],
+    anything := true }
+def exEexc : RuleSpec :=
+  { verb := .shouldNot, importDir := true, exc := true, subjects := [.subOf (nm "p"), .subOf (nm "p.a")],
+    objects := [.subOf (nm "p"), .subOf (nm "p.a")] }
+theorem anything_nested_subOf_counterexample :
+    exE.wf = true ∧ exEany.namesIn exE = true ∧ fluent exEany = true ∧ fluent exEexc = true ∧
+    parentFree exEany = false ∧ dedupSafe exEany = false ∧
+    verdictOf (fun _ _ => false) (archGraph exE) (compile exEany) = .pass ∧ verdict exE exEany = false ∧
+    verdictOf (fun _ _ => false) (archGraph exE) (compile exEexc) = .fail ∧ verdict exE exEexc = false ∧
+    (runRuleOps id (fun _ _ => false) (ruleOps exEany) (archGraph exE)).1 = .pass := by decide
+
+/-! ### the fluent call chain reaches `compile r` (audit F14) -/
+
+/-- `Rule().modules_that().are_named/are_sub_modules_of(subjects).<verb>().<import type>()[.<naming>(objects)]`
+    leaves the builder in the state `compile r`, for every rule a single chain can express (`fluent r`: one naming
+    call per side, so each side is homogeneous) -/
+theorem rule_chain_final_state (glob : Str → Str) (r : RuleSpec) (hf : fluent r = true) :
+    (ruleOps r).foldlM (RuleState.step glob) ({} : RuleState) = .ok (compile r) :=
+  Pta.ruleOps_state_lemma glob r hf
+
+/-- hence running the chain followed by `assert_applies` is `assertApplies` on `compile r`; no call of the chain
+    raises (the reported index is the chain's length, i.e. `assert_applies` itself) -/
+theorem rule_chain_state (glob : Str → Str) (mt : Str → Str → Bool) (g : PGraph Str) (r : RuleSpec)
+    (hf : fluent r = true) :
+    runRuleOps glob mt (ruleOps r) g = ((assertApplies mt (compile r) g).2, (ruleOps r).length) :=
+  Pta.runRuleOps_chain_lemma glob mt g r hf
+
+/-- the oracle theorem, end to end from the call chain -/
+theorem rule_chain_verdict (glob : Str → Str) (mt : Str → Str → Bool) (a : Arch) (g : PGraph Str) (hg : GraphOf a g)
+    (hwf : a.wf = true) (r : RuleSpec) (hf : fluent r = true) (hadm : admissible r = true) (hnames : r.namesIn a = true)
+    (hs : r.subjects ≠ []) (ho : r.anything = true ∨ r.objects ≠ [])
+    (hany : r.anything = true → r.verb = .shouldNot) :
+    (runRuleOps glob mt (ruleOps r) g).1.cls = VClass.ofBool (verdict a r) := by
+  rw [Pta.runRuleOps_chain_lemma glob mt g r hf]
+  exact Pta.verdict_spec_adm_lemma mt a g hg hwf r hadm hnames hs ho hany
+
+example : fluent exR = true ∧ fluent (exN .shouldOnly false true) = true ∧ fluent (exAny true) = true ∧
+    fluent (exD .should true false) = true ∧ fluent (exC .should true false) = false := by decide
+example : ruleOps (exD .shouldOnly false true) =
+    [.modulesThat, .areSubModulesOf ["p".toList], .shouldOnly, .beImportedByExcept, .areNamed ["p.a".toList, "q".toList]] ∧
+    ruleOps (exAny true) = [.modulesThat, .areNamed ["p.a".toList, "q".toList, "p.a.x".toList, "q".toList], .shouldNot, .importAnything] := by
+  decide
+example : runRuleOps id (fun _ _ => false) (ruleOps (exD .shouldOnly false true)) (archGraph exA) =
+    ((assertApplies (fun _ _ => false) (compile (exD .shouldOnly false true)) (archGraph exA)).2, 5) := by decide
+
+/-! ### which reading of "something else" the oracle uses (audit F3)
+
+    For a `sub modules of X` subject the specification's `others` (PtaSpec/RuleSem.lean) tests the far end of an
+    import with `!desc X far`: an import between a strict descendant of `X` and `X` ITSELF is NOT "something else".
+    This is the implementation's reading (`any_dependency_to_module_other_than` skips every node of `X`'s sub tree,
+    `X` included); the documentation is silent. A literal reading of "X's strict descendants" (`othersLit`: `!s.mem far`)
+    would count such an import. The oracle theorems above are about `others`, NOT about `othersLit`. The two readings
+    coincide unless some import connects a strict descendant of `X` with `X` itself in the rule's direction. -/
+
+/-- no import between a strict descendant of `X` and `X` (in the rule's direction) for any `sub modules of X`
+    subject: the two readings give the same "something else" imports, hence the same verdict -/
+theorem others_literal_agree (a : Arch) (r : RuleSpec) (h : noImportToOwnParent a r = true) :
+    (∀ s ∈ r.subjects, ∀ os, othersLit a r.importDir s os = others a r.importDir s os) ∧
+    verdictLit a r = verdict a r :=
+  ⟨Pta.others_literal_agree_lemma a r h, Pta.verdict_literal_agree_lemma a r h⟩
+
+/-- in particular for rules whose subjects are all given by name -/
+example : ∀ v ∈ [Verb.should, Verb.shouldOnly, Verb.shouldNot], ∀ d ∈ [true, false], ∀ x ∈ [true, false],
+    noImportToOwnParent exA (exN v d x) = true ∧ noImportToOwnParent exA (exD v d x) = true := by decide
+
+/-- where they differ: nodes `p`, `p.a`, `q`; the only import is `p.a → p`;
+    "sub modules of p should_not import except q". Specification (`others`) and model: the rule holds / passes — the
+    import's far end `p` is the subject's own parent. Literal reading: `p.a → p` is one violating import. -/
+def exL : Arch := { nodes := ["p", "p.a", "q"].map nm, imports := [(nm "p.a", nm "p")] }
+def exLr : RuleSpec := { verb := .shouldNot, importDir := true, exc := true, subjects := [.subOf (nm "p")], objects := [.named (nm "q")] }
+theorem others_literal_counterexample :
+    exL.wf = true ∧ exLr.strict = true ∧ exLr.namesIn exL = true ∧ noImportToOwnParent exL exLr = false ∧
+    verdict exL exLr = true ∧ verdictOf (fun _ _ => false) (archGraph exL) (compile exLr) = .pass ∧
+    others exL true (.subOf (nm "p")) [.named (nm "q")] = [] ∧
+    othersLit exL true (.subOf (nm "p")) [.named (nm "q")] = [(nm "p.a", nm "p")] ∧
+    verdictLit exL exLr = false := by decide
 
 end Pta.C01
